@@ -1,4 +1,5 @@
 import Brax.Spec.MjKinematics
+import Brax.Model.ScanLevels
 /-! line protocol driver for C01/C08: `fwd <sys> <q> <qd>`, `mjfwd <sys> <q>`, `w2j <sys> <x> <xd>` -/
 open Brax
 
@@ -36,6 +37,15 @@ def stepF (line : String) : String :=
       if ps.length != as.length then "bad-args" else
       joinToks ((Kin.scanFwd (fun (par : Option Int) (a : Int) =>
         match par with | none => a % 1000003 | some y => (31 * y + a) % 1000003) ps as).map toString)
+    | none => "bad-args"
+  | "scanlevels" :: ts =>
+    -- Layer B stage 2: the level-grouped transcription of scan.tree with the same injective step
+    let p : Rd (List Int × List Int) := do let ps ← Rd.list Rd.int; let as ← Rd.list Rd.int; pure (ps, as)
+    match Rd.run p ts with
+    | some (ps, as) =>
+      if ps.length != as.length then "bad-args" else
+      joinToks ((Kin.scanTreeLevels (fun (par : Option Int) (a : Int) =>
+        match par with | none => a % 1000003 | some y => (31 * y + a) % 1000003) ps as 0 0).map toString)
     | none => "bad-args"
   | "scanrev" :: ts =>
     -- y = (a + 37·carry) mod 1000003 ; carry none (deepest level) counts as 7
